@@ -1,6 +1,1008 @@
-//! C03 monitor (not built yet)
-use vcore::{Args, Report};
+//! C03 — decoding untrusted bytes never panics, hangs or mis-frames.
+//!
+//! Decoders under test (all in qbase, the only dependency of this crate):
+//!   packet  `PacketReader` (be_packet / be_header / be_payload) for every DCID length 0..=20
+//!   frame   `FrameReader` (be_frame / complete_frame and the per-frame nom parsers) for every packet type
+//!   params  `ClientParameters::parse_from_bytes`, `ServerParameters::parse_from_bytes`,
+//!           `ServerParameters::try_from_remembered_bytes`
+//!   prim    the nom-style primitives (varint, connection id, addresses, reset token, preferred
+//!           address, packet number, frame type, stream id, raw parameter, parameter values)
+//! The STUN / forward-header parsers of the receive loop live in qtraversal, which this crate
+//! does not link: they are not covered here.
+//!
+//! Oracle per input (every call under `catch`):
+//!   panic        a panic anywhere in the decoder                         C03.panic:<file:line>
+//!   no-progress  iterators are stepped by hand with a budget of len+2 steps; every Ok step must
+//!                consume >= 1 byte and never more than what is left       C03.no-progress:<decoder>
+//!   misframe     element boundaries, types and raw field values are compared with the reference
+//!                parsers of codec_ref.rs (RFC 9000 §16-§19)               C03.misframe:<decoder>.<what>
+//!   accept       the decoder returns Ok where the RFC leaves only an error  C03.accept:<decoder>.<class>
+//!   reject       the decoder refuses bytes that are a well-formed element   C03.reject:<decoder>.<what>
+//!   errkind      frame::Error -> QuicError must be FRAME_ENCODING_ERROR, or PROTOCOL_VIOLATION for
+//!                a frame in a packet type that does not permit it (RFC 9000 §12.4); parameter
+//!                errors must be TRANSPORT_PARAMETER_ERROR (§7.4)          C03.errkind:<decoder>.<class>
+//!   dropped      after a datagram-level error the reader is exhausted     C03.not-dropped:packet
+//!   value        a decoded frame re-encodes and decodes to itself         C03.value:frame.<kind>
+use std::time::Duration;
 
-pub fn run(_args: &Args, rep: &mut Report) {
-    rep.inconclusive("monitor not built yet");
+use bytes::{Bytes, BytesMut};
+use qbase::{
+    cid::{ConnectionId, be_connection_id},
+    error::{ErrorKind, QuicError},
+    frame::{FrameReader, GetFrameType, be_frame_type, io::be_frame},
+    net::{Family, addr::be_endpoint_addr, be_socket_addr, route::be_link},
+    packet::{
+        DataHeader, GetDcid, GetScid, Packet, PacketReader, long, take_pn_len,
+    },
+    param::{ClientParameters, ParameterId, ServerParameters, be_parameter_value, be_raw_parameter, core::Parameters, preferred_address::{PreferredAddress, be_preferred_address}},
+    sid::be_streamid,
+    token::{ResetToken, be_reset_token},
+    varint::{VarInt, be_varint},
+};
+use serde_json::{Value, json};
+use vcore::{Args, Report, Rng, panics::catch};
+
+use crate::{
+    codec_gen::{self as g, FRAME_KINDS, PKT_NAMES, Src, VB},
+    codec_ref::{self as r, K_FE, K_PV, Verdict},
+};
+
+struct Fail {
+    sig: String,
+    what: String,
+}
+
+fn fail(out: &mut Vec<Fail>, sig: String, what: String) {
+    out.push(Fail { sig: format!("C03.{sig}"), what });
+}
+
+fn panic_loc(p: &vcore::panics::PanicRecord) -> String {
+    let l = vcore::panics::short_location(&p.location);
+    match l.find("registry/src/") {
+        Some(i) => l[i + 13..].splitn(2, '/').nth(1).unwrap_or(&l).to_string(),
+        None => l,
+    }
+}
+
+#[derive(Default)]
+struct Obs {
+    ok_steps: u64,
+    err_steps: u64,
+    deep: bool,
+    counts: std::collections::BTreeMap<String, u64>,
+    err_variants: Vec<String>,
+}
+
+impl Obs {
+    fn count(&mut self, k: String) {
+        *self.counts.entry(k).or_insert(0) += 1;
+    }
+}
+
+fn variant_name(dbg: &str) -> String {
+    dbg.split(|c: char| !(c.is_alphanumeric() || c == '_')).next().unwrap_or("").to_string()
+}
+
+// ---------------------------------------------------------------------------------------------
+// packet
+// ---------------------------------------------------------------------------------------------
+fn check_packet(bytes: &[u8], dcid_len: usize, obs: &mut Obs) -> Vec<Fail> {
+    let mut out = vec![];
+    let (refp, referr) = r::ref_datagram(bytes, dcid_len);
+    let total = bytes.len();
+    let mut reader = PacketReader::new(BytesMut::from(bytes), dcid_len);
+    let mut i = 0usize;
+    let mut consumed = 0usize;
+    let mut steps = 0usize;
+    loop {
+        steps += 1;
+        if steps > total + 2 {
+            fail(&mut out, "no-progress:packet".into(), format!("PacketReader (dcid_len {dcid_len}) still yields items after {} steps on a {total}-byte datagram", steps - 1));
+            break;
+        }
+        let item = match catch(|| reader.next()) {
+            Err(p) => {
+                fail(&mut out, format!("panic:{}", panic_loc(&p)), format!("PacketReader::next (dcid_len {dcid_len}) panicked on packet #{i} of a {total}-byte datagram: {}", p.message));
+                break;
+            }
+            Ok(x) => x,
+        };
+        match item {
+            None => {
+                if consumed != total {
+                    fail(&mut out, "misframe:packet.ends-early".into(), format!("PacketReader ends after {consumed} of {total} bytes without an error (reference: {} packets, then {:?})", refp.len(), referr));
+                }
+                break;
+            }
+            Some(Ok(pkt)) => {
+                obs.ok_steps += 1;
+                obs.deep = true;
+                let rest = total - consumed;
+                let (kind, len, offset, dcid, scid, token): (u8, usize, usize, Vec<u8>, Vec<u8>, Vec<u8>) = match &pkt {
+                    Packet::VN(h) => (0, rest, 0, h.dcid().to_vec(), h.scid().to_vec(), h.versions().iter().flat_map(|v| v.to_be_bytes()).collect()),
+                    Packet::Retry(h) => (1, rest, 0, h.dcid().to_vec(), h.scid().to_vec(), [&h.token()[..], &h.integrity()[..]].concat()),
+                    Packet::Data(dp) => match &dp.header {
+                        DataHeader::Long(long::DataHeader::Initial(h)) => (2, dp.bytes.len(), dp.offset, h.dcid().to_vec(), h.scid().to_vec(), h.token().clone()),
+                        DataHeader::Long(long::DataHeader::ZeroRtt(h)) => (3, dp.bytes.len(), dp.offset, h.dcid().to_vec(), h.scid().to_vec(), vec![]),
+                        DataHeader::Long(long::DataHeader::Handshake(h)) => (4, dp.bytes.len(), dp.offset, h.dcid().to_vec(), h.scid().to_vec(), vec![]),
+                        DataHeader::Short(h) => (5, dp.bytes.len(), dp.offset, h.dcid().to_vec(), vec![], vec![]),
+                    },
+                };
+                obs.count(format!("packets_decoded.{}", r::PKT_KIND_NAMES[kind as usize]));
+                if len == 0 || len > rest {
+                    fail(&mut out, "no-progress:packet".into(), format!("packet #{i} ({}) reported as {len} bytes with {rest} bytes left", r::PKT_KIND_NAMES[kind as usize]));
+                    break;
+                }
+                if let Packet::Data(dp) = &pkt {
+                    if dp.bytes[..] != bytes[consumed..consumed + len] || dp.offset > len {
+                        fail(&mut out, "misframe:packet.bytes".into(), format!("packet #{i}: the returned bytes are not the datagram's bytes {consumed}..{}", consumed + len));
+                    }
+                }
+                match refp.get(i) {
+                    None => fail(
+                        &mut out,
+                        format!("accept:packet.{}", referr.unwrap_or("trailing").replace(' ', "-").replace(':', "")),
+                        format!("packet #{i} accepted as {} of {len} bytes; reference: malformed ({:?})", r::PKT_KIND_NAMES[kind as usize], referr),
+                    ),
+                    Some(rp) => {
+                        if rp.kind != kind || rp.len != len || rp.offset != offset || rp.dcid != dcid || rp.scid != scid || rp.token != token {
+                            fail(
+                                &mut out,
+                                format!("misframe:packet.{}", r::PKT_KIND_NAMES[rp.kind as usize]),
+                                format!(
+                                    "packet #{i}: decoder {} len {len} payload@{offset} dcid {} scid {} token {}B; reference {} len {} payload@{} dcid {} scid {} token {}B",
+                                    r::PKT_KIND_NAMES[kind as usize],
+                                    vcore::hex(&dcid),
+                                    vcore::hex(&scid),
+                                    token.len(),
+                                    r::PKT_KIND_NAMES[rp.kind as usize],
+                                    rp.len,
+                                    rp.offset,
+                                    vcore::hex(&rp.dcid),
+                                    vcore::hex(&rp.scid),
+                                    rp.token.len()
+                                ),
+                            );
+                        }
+                    }
+                }
+                consumed += len;
+                i += 1;
+            }
+            Some(Err(e)) => {
+                obs.err_steps += 1;
+                let vn = variant_name(&format!("{e:?}"));
+                if !matches!(vn.as_str(), "IncompleteType" | "UnsupportedVersion") {
+                    obs.deep = true;
+                }
+                obs.count(format!("packet_errors.{vn}"));
+                obs.err_variants.push(format!("packet.{vn}"));
+                match refp.get(i) {
+                    Some(rp) if !rp.lenient => fail(
+                        &mut out,
+                        format!("reject:packet.{}", r::PKT_KIND_NAMES[rp.kind as usize]),
+                        format!("packet #{i} rejected with {e:?}; reference: well-formed {} packet of {} bytes", r::PKT_KIND_NAMES[rp.kind as usize], rp.len),
+                    ),
+                    _ => {}
+                }
+                // "simply dropped": nothing more comes out of this datagram
+                match catch(|| reader.next()) {
+                    Ok(None) => {}
+                    Ok(Some(_)) => fail(&mut out, "not-dropped:packet".into(), format!("after the error {e:?} the reader yields another item")),
+                    Err(p) => fail(&mut out, format!("panic:{}", panic_loc(&p)), format!("PacketReader::next after an error panicked: {}", p.message)),
+                }
+                break;
+            }
+        }
+    }
+    out
+}
+
+// ---------------------------------------------------------------------------------------------
+// frames
+// ---------------------------------------------------------------------------------------------
+fn kind_bit(k: ErrorKind) -> u8 {
+    match k {
+        ErrorKind::FrameEncoding => K_FE,
+        ErrorKind::ProtocolViolation => K_PV,
+        _ => 4,
+    }
+}
+
+fn check_frames(bytes: &[u8], pi: usize, obs: &mut Obs) -> Vec<Fail> {
+    let mut out = vec![];
+    let pty = g::pkt_types()[pi];
+    let total = bytes.len();
+    let mut reader = FrameReader::new(Bytes::copy_from_slice(bytes), pty);
+    let mut pos = 0usize;
+    let mut steps = 0usize;
+    loop {
+        steps += 1;
+        if steps > total + 2 {
+            fail(&mut out, "no-progress:frame".into(), format!("FrameReader ({}) still yields items after {} steps on a {total}-byte payload", PKT_NAMES[pi], steps - 1));
+            break;
+        }
+        let before = reader.len();
+        let item = match catch(|| reader.next()) {
+            Err(p) => {
+                fail(&mut out, format!("panic:{}", panic_loc(&p)), format!("FrameReader::next ({}) panicked at offset {pos} of a {total}-byte payload: {}", PKT_NAMES[pi], p.message));
+                break;
+            }
+            Ok(x) => x,
+        };
+        match item {
+            None => {
+                if before != 0 {
+                    fail(&mut out, "misframe:frame.ends-early".into(), format!("FrameReader ends with {before} bytes left and no error"));
+                }
+                break;
+            }
+            Some(Ok((frame, fty))) => {
+                obs.ok_steps += 1;
+                let after = reader.len();
+                if after >= before {
+                    fail(&mut out, "no-progress:frame".into(), format!("FrameReader returned {:?} without consuming input ({before} -> {after} bytes left)", fty));
+                    break;
+                }
+                let c = before - after;
+                let rf = r::ref_frame(&bytes[pos..], pi);
+                let tname = rf.ty.map(r::type_name).unwrap_or("?");
+                obs.count(format!("frames_decoded.{tname}"));
+                if tname != "padding" && tname != "ping" {
+                    obs.deep = true;
+                }
+                if rf.verdict == Verdict::MustErr {
+                    fail(
+                        &mut out,
+                        format!("accept:frame.{}", rf.class),
+                        format!("{} payload offset {pos}: decoder accepts {:?} ({c} bytes); reference: {} ({tname})", PKT_NAMES[pi], fty, rf.class),
+                    );
+                    break;
+                }
+                let tval = VarInt::from(fty).into_u64();
+                if rf.consumed != Some(c) || rf.ty != Some(tval) {
+                    fail(
+                        &mut out,
+                        format!("misframe:frame.{tname}"),
+                        format!("{} payload offset {pos}: decoder frames type {tval:#x} as {c} bytes, reference type {:?} as {:?} bytes", PKT_NAMES[pi], rf.ty, rf.consumed),
+                    );
+                    break;
+                }
+                // a decoded value is well-formed: it re-encodes and decodes to itself
+                let kind = FRAME_KINDS[g::frame_kind(&frame)];
+                match catch(|| {
+                    let enc = Bytes::from(g::encode_frame(&frame));
+                    be_frame(&enc, pty).map(|(n, f2, _)| n == enc.len() && f2 == frame)
+                }) {
+                    Ok(Ok(true)) => {}
+                    Ok(Ok(false)) => fail(&mut out, format!("value:frame.{kind}"), format!("decoded {} re-encodes to bytes that decode differently", g::describe_frame(&frame))),
+                    // values the decoder produced but refuses when re-encoded canonically
+                    Ok(Err(e)) => fail(&mut out, format!("value:frame.{kind}"), format!("decoded {} re-encodes to bytes the decoder rejects: {e}", g::describe_frame(&frame))),
+                    Err(p) => fail(&mut out, format!("panic:{}", panic_loc(&p)), format!("re-encoding the decoded {} panicked: {}", g::describe_frame(&frame), p.message)),
+                }
+                pos += c;
+            }
+            Some(Err(e)) => {
+                obs.err_steps += 1;
+                let vn = variant_name(&format!("{e:?}"));
+                obs.count(format!("frame_errors.{vn}"));
+                obs.err_variants.push(format!("frame.{vn}"));
+                if !matches!(vn.as_str(), "InvalidType" | "IncompleteType" | "WrongType") {
+                    obs.deep = true;
+                }
+                let rf = r::ref_frame(&bytes[pos..], pi);
+                let tname = rf.ty.map(r::type_name).unwrap_or("?");
+                if rf.verdict == Verdict::MustOk {
+                    fail(
+                        &mut out,
+                        format!("reject:frame.{tname}"),
+                        format!("{} payload offset {pos}: decoder rejects ({e}) what the reference frames as a well-formed {tname} frame of {:?} bytes", PKT_NAMES[pi], rf.consumed),
+                    );
+                }
+                match catch(|| QuicError::from(e.clone())) {
+                    Err(p) => fail(&mut out, format!("panic:{}", panic_loc(&p)), format!("frame::Error -> QuicError panicked for {e:?}: {}", p.message)),
+                    Ok(qe) => {
+                        if rf.verdict != Verdict::MustOk && rf.kinds & kind_bit(qe.kind()) == 0 {
+                            fail(
+                                &mut out,
+                                format!("errkind:frame.{}", rf.class),
+                                format!(
+                                    "{} payload offset {pos} ({tname}, {}): error {e:?} maps to {:?}; RFC 9000 §12.4 prescribes {}",
+                                    PKT_NAMES[pi],
+                                    rf.class,
+                                    qe.kind(),
+                                    if rf.kinds == K_PV { "PROTOCOL_VIOLATION" } else if rf.kinds == K_FE { "FRAME_ENCODING_ERROR" } else { "FRAME_ENCODING_ERROR or PROTOCOL_VIOLATION" }
+                                ),
+                            );
+                        }
+                    }
+                }
+                // production (qconnection/src/space.rs read_plain_packet) stops at the first error
+                break;
+            }
+        }
+    }
+    out
+}
+
+// ---------------------------------------------------------------------------------------------
+// transport parameters
+// ---------------------------------------------------------------------------------------------
+const PARAM_PARSERS: [&str; 3] = ["client", "server", "remembered"];
+
+fn compare_params<R>(p: &Parameters<R>, rp: &r::RefParams, out: &mut Vec<Fail>) {
+    for (id, body) in &rp.entries {
+        let Ok(pid) = ParameterId::try_from(VarInt::from_u64(*id).unwrap()) else {
+            fail(out, "misframe:params.id".into(), format!("reference knows parameter {id:#x}, ParameterId does not"));
+            continue;
+        };
+        let ok = match r::param_type(*id).unwrap() {
+            r::PType::VarInt => {
+                let mut q = 0;
+                let v = r::rv(body, &mut q).unwrap();
+                if matches!(*id, 0x01 | 0x0b) { p.get::<Duration>(pid) == Some(Duration::from_millis(v)) } else { p.get::<VarInt>(pid).map(|x| x.into_u64()) == Some(v) }
+            }
+            r::PType::Flag => p.get::<bool>(pid) == Some(true),
+            r::PType::Token => p.get::<ResetToken>(pid).map(|t| t.to_vec()) == Some(body.clone()),
+            r::PType::Cid => p.get::<ConnectionId>(pid).map(|c| c.to_vec()) == Some(body.clone()),
+            r::PType::Bytes => p.get::<Bytes>(pid).map(|b| b.to_vec()) == Some(body.clone()),
+            r::PType::PrefAddr => match p.get::<PreferredAddress>(pid) {
+                None => false,
+                Some(a) => {
+                    let n = body[24] as usize;
+                    a.address_v4().ip().octets() == body[0..4]
+                        && a.address_v4().port() == u16::from_be_bytes([body[4], body[5]])
+                        && a.address_v6().ip().octets() == body[6..22]
+                        && a.address_v6().port() == u16::from_be_bytes([body[22], body[23]])
+                        && a.connection_id().to_vec() == body[25..25 + n]
+                        && a.stateless_reset_token().to_vec() == body[25 + n..]
+                }
+            },
+        };
+        if !ok || !p.contains(pid) {
+            fail(out, format!("misframe:params.{pid:?}"), format!("parameter {pid:?} with value bytes {} is not what the parsed set holds", vcore::hex(body)));
+        }
+    }
+}
+
+fn check_params(bytes: &[u8], which: usize, obs: &mut Obs) -> Vec<Fail> {
+    let mut out = vec![];
+    let from_client = which == 0;
+    let rp = r::ref_params(bytes, from_client);
+    let name = PARAM_PARSERS[which];
+    enum P {
+        C(ClientParameters),
+        S(ServerParameters),
+    }
+    let res = catch(|| match which {
+        0 => ClientParameters::parse_from_bytes(bytes).map(P::C),
+        1 => ServerParameters::parse_from_bytes(bytes).map(P::S),
+        _ => ServerParameters::try_from_remembered_bytes(bytes).map(P::S),
+    });
+    match res {
+        Err(p) => fail(&mut out, format!("panic:{}", panic_loc(&p)), format!("{name} parameter parser panicked on {} ({} bytes, reference: {:?}): {}", vcore::hex(&bytes[..bytes.len().min(48)]), bytes.len(), rp.malformed, p.message)),
+        Ok(Err(qe)) => {
+            obs.err_steps += 1;
+            if !rp.entries.is_empty() {
+                obs.deep = true;
+            }
+            obs.count(format!("param_errors.{name}"));
+            if qe.kind() != ErrorKind::TransportParameter {
+                fail(&mut out, format!("errkind:params.{name}"), format!("parameter error {qe} has kind {:?}; RFC 9000 §7.4 prescribes TRANSPORT_PARAMETER_ERROR", qe.kind()));
+            }
+        }
+        Ok(Ok(p)) => {
+            obs.ok_steps += 1;
+            obs.deep = !rp.entries.is_empty();
+            obs.count(format!("params_accepted.{name}"));
+            if let Some(why) = rp.malformed {
+                fail(&mut out, format!("accept:params.{why}"), format!("{name} parser accepts a malformed blob ({why}): {}", vcore::hex(&bytes[..bytes.len().min(64)])));
+            } else if !rp.duplicate {
+                match &p {
+                    P::C(p) => compare_params(p, &rp, &mut out),
+                    P::S(p) => compare_params(p, &rp, &mut out),
+                }
+            }
+        }
+    }
+    out
+}
+
+// ---------------------------------------------------------------------------------------------
+// primitives
+// ---------------------------------------------------------------------------------------------
+const N_PRIM: usize = 14 + 20;
+
+fn is_suffix(whole: &[u8], rest: &[u8]) -> bool {
+    // (parsers that take "everything" return a static empty slice)
+    rest.is_empty() || (rest.len() <= whole.len() && std::ptr::eq(whole[whole.len() - rest.len()..].as_ptr(), rest.as_ptr()))
+}
+
+fn check_prim(bytes: &[u8], k: usize, obs: &mut Obs) -> Vec<Fail> {
+    let mut out = vec![];
+    let name: String;
+    macro_rules! run {
+        ($n:expr, $e:expr) => {{
+            name = $n.to_string();
+            catch(|| $e.map(|(rest, _)| is_suffix(bytes, rest)).map_err(|_| ()))
+        }};
+    }
+    let res = match k {
+        0 => {
+            name = "varint".into();
+            catch(|| {
+                let mut p = 0;
+                let want = r::rv(bytes, &mut p);
+                match be_varint(bytes) {
+                    Ok((rest, v)) => Ok(is_suffix(bytes, rest) && want == Some(v.into_u64()) && bytes.len() - rest.len() == p),
+                    Err(_) => {
+                        if want.is_some() {
+                            Ok(false)
+                        } else {
+                            Err(())
+                        }
+                    }
+                }
+            })
+        }
+        1 => run!("connection_id", be_connection_id(bytes)),
+        2 => run!("socket_addr_v4", be_socket_addr(bytes, Family::V4)),
+        3 => run!("socket_addr_v6", be_socket_addr(bytes, Family::V6)),
+        4 => run!("endpoint_addr_direct_v4", be_endpoint_addr(bytes, 0, Family::V4)),
+        5 => run!("endpoint_addr_agent_v4", be_endpoint_addr(bytes, 1, Family::V4)),
+        6 => run!("endpoint_addr_agent_v6", be_endpoint_addr(bytes, 1, Family::V6)),
+        7 => run!("link", be_link(bytes)),
+        8 => run!("reset_token", be_reset_token(bytes)),
+        9 => run!("preferred_address", be_preferred_address(bytes)),
+        10 => run!("packet_number", take_pn_len(1 + (bytes.len() % 4) as u8)(bytes)),
+        11 => run!("frame_type", be_frame_type(bytes)),
+        12 => run!("stream_id", be_streamid(bytes)),
+        13 => run!("raw_parameter", be_raw_parameter(bytes)),
+        _ => {
+            let id = g::ALL_PARAM_IDS[(k - 14) % g::ALL_PARAM_IDS.len()];
+            run!(format!("parameter_value.{id:?}"), be_parameter_value(bytes, id))
+        }
+    };
+    match res {
+        Err(p) => fail(&mut out, format!("panic:{}", panic_loc(&p)), format!("{name} parser panicked on {} ({} bytes): {}", vcore::hex(&bytes[..bytes.len().min(48)]), bytes.len(), p.message)),
+        Ok(Ok(true)) => {
+            obs.ok_steps += 1;
+            obs.deep = true;
+        }
+        Ok(Ok(false)) => fail(&mut out, format!("misframe:prim.{}", name.split('.').next().unwrap()), format!("{name} parser: result is not a suffix of / disagrees with the reference for the input {}", vcore::hex(&bytes[..bytes.len().min(48)]))),
+        Ok(Err(())) => obs.err_steps += 1,
+    }
+    out
+}
+
+// ---------------------------------------------------------------------------------------------
+// one case
+// ---------------------------------------------------------------------------------------------
+const DECODERS: [&str; 4] = ["packet", "frame", "params", "prim"];
+
+struct Ctx<'a> {
+    rep: &'a mut Report,
+    inputs: u64,
+    /// origins of which one input was written to the evidence samples
+    sampled: Vec<String>,
+}
+
+impl Ctx<'_> {
+    fn case(&mut self, decoder: usize, arg: usize, bytes: &[u8], origin: &str) {
+        let mut obs = Obs::default();
+        let fails = match decoder {
+            0 => check_packet(bytes, arg, &mut obs),
+            1 => check_frames(bytes, arg, &mut obs),
+            2 => check_params(bytes, arg, &mut obs),
+            _ => check_prim(bytes, arg, &mut obs),
+        };
+        let rep = &mut *self.rep;
+        self.inputs += 1;
+        rep.evaluations += 1;
+        let dn = DECODERS[decoder];
+        rep.count(&format!("inputs.{dn}"));
+        rep.count(&format!("origin.{origin}"));
+        rep.add(&format!("ok_steps.{dn}"), obs.ok_steps);
+        rep.add(&format!("err_steps.{dn}"), obs.err_steps);
+        rep.max("max_input_len", bytes.len() as u64);
+        for (k, v) in obs.counts {
+            rep.add(&k, v);
+        }
+        for v in obs.err_variants {
+            rep.set("error_variants", vcore::fnv_str(&v));
+        }
+        if obs.deep && !self.sampled.iter().any(|o| o == origin) && self.sampled.len() < 6 {
+            self.sampled.push(origin.to_string());
+            rep.sample(json!({"decoder": dn, "configuration": arg, "origin": origin, "input_hex": vcore::hex(&bytes[..bytes.len().min(96)]),
+                "input_len": bytes.len(), "elements_decoded": obs.ok_steps, "errors": obs.err_steps}));
+        }
+        if obs.deep {
+            let mut h = vcore::fnv(bytes);
+            h ^= ((decoder as u64) << 60) ^ ((arg as u64) << 52);
+            rep.distinct(h);
+        }
+        for f in fails {
+            rep.violation(f.sig, f.what, json!({"kind":"c03","decoder":dn,"arg":arg,"hex":vcore::hex(bytes),"origin":origin}));
+        }
+    }
+}
+
+// ---------------------------------------------------------------------------------------------
+// workload
+// ---------------------------------------------------------------------------------------------
+fn varint_bytes(v: u64, width: usize) -> Vec<u8> {
+    match width {
+        1 => vec![v as u8 & 0x3f],
+        2 => ((v as u16 & 0x3fff) | 0x4000).to_be_bytes().to_vec(),
+        4 => ((v as u32 & 0x3fff_ffff) | 0x8000_0000).to_be_bytes().to_vec(),
+        _ => ((v & r::VMAX) | 0xc000_0000_0000_0000).to_be_bytes().to_vec(),
+    }
+}
+
+/// structure-aware mutants of one valid encoding
+fn mutants(seed: &[u8], other: &[u8], rng: &mut Rng, thorough: bool, mut emit: impl FnMut(&str, Vec<u8>)) {
+    let n = seed.len();
+    // truncate at every length
+    if n <= 400 {
+        for l in 0..n {
+            emit("truncate", seed[..l].to_vec());
+        }
+    } else {
+        for l in [0, 1, 2, 5, 19, 20, 21, 63, 64, 65, n / 2, n - 65, n - 64, n - 21, n - 20, n - 17, n - 16, n - 2, n - 1] {
+            emit("truncate", seed[..l.min(n)].to_vec());
+        }
+        for _ in 0..24 {
+            emit("truncate", seed[..rng.usize(n)].to_vec());
+        }
+    }
+    if n == 0 {
+        return;
+    }
+    // single bit flips
+    if n <= 40 || (thorough && n <= 120) {
+        for bit in 0..n * 8 {
+            let mut m = seed.to_vec();
+            m[bit / 8] ^= 1 << (bit % 8);
+            emit("bitflip", m);
+        }
+    } else {
+        for _ in 0..96 {
+            let bit = rng.usize(n * 8);
+            let mut m = seed.to_vec();
+            m[bit / 8] ^= 1 << (bit % 8);
+            emit("bitflip", m);
+        }
+    }
+    // boundary varints written over / inserted at every position (this is what inflates length fields)
+    let positions: Vec<usize> = if n <= 48 { (0..n).collect() } else { (0..40).map(|_| rng.usize(n)).chain(0..8).collect() };
+    for &p in &positions {
+        for (bi, &b) in VB.iter().enumerate() {
+            let w = r::min_varint_len(b);
+            let enc = varint_bytes(b, w);
+            // overwrite the varint that starts here (or as many bytes as the new one needs)
+            let old = (1usize << (seed[p] >> 6)).min(n - p);
+            let mut m = seed[..p].to_vec();
+            m.extend_from_slice(&enc);
+            m.extend_from_slice(&seed[p + old..]);
+            emit("varint-overwrite", m);
+            if bi % 2 == 1 || thorough {
+                let mut m = seed.to_vec();
+                for (k, x) in enc.iter().enumerate() {
+                    if p + k < n {
+                        m[p + k] = *x;
+                    }
+                }
+                emit("varint-inplace", m);
+            }
+        }
+        // non-minimal encodings of small values and the largest 8-byte value
+        for (v, w) in [(0u64, 8usize), (1, 2), (20, 4), (21, 1), (255, 2), (r::VMAX, 8), (seed.len() as u64, 2), (seed.len() as u64 + 1, 2)] {
+            let mut m = seed[..p].to_vec();
+            m.extend_from_slice(&varint_bytes(v, w));
+            let old = (1usize << (seed[p] >> 6)).min(n - p);
+            m.extend_from_slice(&seed[p + old..]);
+            emit("varint-overwrite", m);
+        }
+        for x in [0x00u8, 0xff, 0x40, 0x80, 0xc0, 21, 20] {
+            let mut m = seed.to_vec();
+            m[p] = x;
+            emit("byte-set", m);
+        }
+    }
+    // splices with another valid encoding
+    for _ in 0..(if thorough { 16 } else { 6 }) {
+        let a = rng.usize(n + 1);
+        let b = rng.usize(other.len() + 1);
+        let mut m = seed[..a].to_vec();
+        m.extend_from_slice(&other[b..]);
+        emit("splice", m);
+        let mut m = other[..b].to_vec();
+        m.extend_from_slice(&seed[a..]);
+        emit("splice", m);
+    }
+    // append / duplicate
+    let mut m = seed.to_vec();
+    m.extend_from_slice(seed);
+    emit("append", m);
+    let mut m = seed.to_vec();
+    let extra = 1 + rng.usize(40);
+    m.extend_from_slice(&rng.bytes(extra));
+    emit("append", m);
+    // stacked random mutations
+    for _ in 0..(if thorough { 48 } else { 16 }) {
+        let mut m = seed.to_vec();
+        for _ in 0..rng.range(2, 5) {
+            if m.is_empty() {
+                break;
+            }
+            let p = rng.usize(m.len());
+            match rng.below(5) {
+                0 => m[p] ^= 1 << rng.below(8),
+                1 => m.truncate(p),
+                2 => {
+                    let b = *rng.pick(&VB);
+                    let w = [r::min_varint_len(b), 8][rng.usize(2)];
+                    let enc = varint_bytes(b, w);
+                    m.splice(p..(p + 1).min(m.len()), enc);
+                }
+                3 => m.insert(p, rng.next_u64() as u8),
+                _ => {
+                    m.remove(p);
+                }
+            }
+        }
+        emit("stacked", m);
+    }
+}
+
+/// hand-seeded boundary corpus: (decoder, arg or usize::MAX for "all", bytes)
+fn corpus() -> Vec<(usize, usize, Vec<u8>)> {
+    const ALL: usize = usize::MAX;
+    let mut c: Vec<(usize, usize, Vec<u8>)> = vec![];
+    let cat = |parts: &[&[u8]]| parts.concat();
+    // --- datagrams -------------------------------------------------------------------------
+    let mut long21 = vec![0xc0, 0, 0, 0, 1, 21];
+    long21.extend_from_slice(&[0xaa; 60]);
+    c.push((0, ALL, long21));
+    let mut long255 = vec![0xc0, 0, 0, 0, 1, 255];
+    long255.extend_from_slice(&[0xaa; 300]);
+    c.push((0, ALL, long255));
+    let mut scid21 = vec![0xe0, 0, 0, 0, 1, 0, 21];
+    scid21.extend_from_slice(&[0xbb; 60]);
+    c.push((0, ALL, scid21));
+    c.push((0, ALL, cat(&[&[0x80, 0, 0, 0, 0, 21], &[0xcc; 40]]))); // VN with dcid len 21
+    c.push((0, ALL, cat(&[&[0x80, 0, 0, 0, 0, 0, 0], &[1, 2, 3]]))); // VN with partial version
+    c.push((0, ALL, vec![0x80, 0, 0, 0, 0, 0, 0])); // VN without versions
+    c.push((0, ALL, vec![]));
+    c.push((0, ALL, vec![0x40]));
+    c.push((0, ALL, vec![0xc0]));
+    c.push((0, ALL, vec![0xc0, 0, 0, 0]));
+    c.push((0, ALL, vec![0xc0, 0, 0, 0, 1]));
+    c.push((0, ALL, vec![0x80, 0, 0, 0, 1, 0, 0, 0, 0])); // long, fixed bit zero
+    c.push((0, ALL, vec![0xc0, 0xff, 0xff, 0xff, 0xff, 0, 0, 0, 0])); // unknown version
+    for plen in [0usize, 1, 19, 20, 21] {
+        // initial, empty cids, empty token, payload of plen bytes
+        c.push((0, ALL, cat(&[&[0xc0, 0, 0, 0, 1, 0, 0, 0, plen as u8], &vec![0x11; plen]])));
+        // handshake followed by a short-header packet
+        c.push((0, ALL, cat(&[&[0xe0, 0, 0, 0, 1, 0, 0, plen as u8], &vec![0x11; plen], &[0x40], &[0x22; 30]])));
+        // short header with plen bytes after the first byte
+        c.push((0, ALL, cat(&[&[0x40], &vec![0x33; plen]])));
+        c.push((0, ALL, cat(&[&[0x40], &vec![0x33; plen + 20]])));
+    }
+    // length fields: zero, larger than the datagram, 2^62-1, non-minimal
+    c.push((0, ALL, cat(&[&[0xd0, 0, 0, 0, 1, 0, 0], &[0xff; 8], &[0x44; 40]])));
+    c.push((0, ALL, cat(&[&[0xd0, 0, 0, 0, 1, 0, 0], &[0xc0, 0, 0, 0, 0, 0, 0, 25], &[0x44; 25]])));
+    c.push((0, ALL, cat(&[&[0xd0, 0, 0, 0, 1, 0, 0, 0x40, 41], &[0x44; 40]])));
+    c.push((0, ALL, cat(&[&[0xc0, 0, 0, 0, 1, 0, 0], &[0xff; 8], &[0x44; 40]]))); // token length 2^62-1
+    c.push((0, ALL, cat(&[&[0xc0, 0, 0, 0, 1, 0, 0, 0x40, 30], &[0x44; 29]]))); // token runs into the end
+    c.push((0, ALL, cat(&[&[0xf0, 0, 0, 0, 1, 0, 0], &[0x55; 15]]))); // retry with 15 bytes
+    c.push((0, ALL, cat(&[&[0xf0, 0, 0, 0, 1, 0, 0], &[0x55; 16]])));
+    c.push((0, ALL, cat(&[&[0xf0, 0, 0, 0, 1, 20], &[0x55; 20], &[20], &[0x66; 20], &[0x77; 40]])));
+    // three coalesced long packets and junk
+    let one = cat(&[&[0xe0, 0, 0, 0, 1, 4, 1, 2, 3, 4, 0, 20], &[0x11; 20]]);
+    c.push((0, ALL, cat(&[&one, &one, &one, &[0xc0]])));
+    // --- frames ------------------------------------------------------------------------------
+    c.push((1, ALL, vec![0x02, 0x05, 0x00, 0x00, 0x0a])); // ACK first_range > largest
+    c.push((1, ALL, vec![0x02, 0x00, 0x00, 0x01, 0x00, 0x00, 0x00])); // ACK range below zero
+    c.push((1, ALL, cat(&[&[0x02, 0x05, 0x00], &[0xff; 8], &[0x00]]))); // ACK range count 2^62-1
+    c.push((1, ALL, cat(&[&[0x03, 0x3f, 0x00, 0x00, 0x00], &[0xff; 8], &[0xff; 8], &[0xff; 7]]))); // ECN truncated
+    c.push((1, ALL, cat(&[&[0x06], &[0xff; 8], &[0x00]]))); // CRYPTO offset 2^62-1 len 0
+    c.push((1, ALL, cat(&[&[0x06], &[0xff; 8], &[0x01, 0xaa]]))); // offset + len overflow
+    c.push((1, ALL, cat(&[&[0x06, 0x00], &[0xff; 8], &[0xaa; 9]]))); // length 2^62-1
+    c.push((1, ALL, cat(&[&[0x0e, 0x00], &[0xff; 8], &[0x01, 0xaa]]))); // STREAM off+len overflow
+    c.push((1, ALL, cat(&[&[0x0c, 0x00], &[0xff; 8], &[0xaa; 3]]))); // STREAM without length near 2^62
+    c.push((1, ALL, cat(&[&[0x0f], &[0xff; 8], &[0xff; 8], &[0xff; 8]]))); // every field 2^62-1
+    c.push((1, ALL, vec![0x08])); // STREAM with nothing
+    c.push((1, ALL, vec![0x07, 0x00])); // NEW_TOKEN empty
+    c.push((1, ALL, cat(&[&[0x07, 0x40, 0x40], &[0x99; 64]])));
+    c.push((1, ALL, cat(&[&[0x07], &[0xff; 8]])));
+    for l in [0u8, 1, 20, 21, 255] {
+        c.push((1, ALL, cat(&[&[0x18, 0x01, 0x00, l], &vec![0xab; l as usize], &[0xcd; 16]])));
+    }
+    c.push((1, ALL, cat(&[&[0x18, 0x01, 0x02, 4], &[0xab; 4], &[0xcd; 16]]))); // retire_prior_to > seq
+    c.push((1, ALL, cat(&[&[0x18, 0x01, 0x00, 4], &[0xab; 4], &[0xcd; 15]]))); // token short
+    c.push((1, ALL, cat(&[&[0x12], &[0xd0, 0, 0, 0, 0, 0, 0, 0]]))); // MAX_STREAMS 2^60
+    c.push((1, ALL, cat(&[&[0x13], &[0xd0, 0, 0, 0, 0, 0, 0, 1]]))); // 2^60+1
+    c.push((1, ALL, cat(&[&[0x16], &[0xff; 8]])));
+    c.push((1, ALL, cat(&[&[0x1c, 0x0a, 0x08, 0x05], b"abc"]))); // reason longer than the payload
+    c.push((1, ALL, cat(&[&[0x1c, 0x11, 0x00, 0x00]]))); // unknown error code
+    c.push((1, ALL, cat(&[&[0x1c, 0x0a, 0x1f, 0x00]]))); // unknown frame type in close
+    c.push((1, ALL, cat(&[&[0x1c, 0x41, 0xff, 0x00, 0x02, 0xff, 0xfe]]))); // crypto alert, invalid utf-8 reason
+    c.push((1, ALL, cat(&[&[0x1d], &[0xff; 8], &[0xff; 8]])));
+    c.push((1, ALL, vec![0x31, 0x05, 1, 2, 3, 4])); // DATAGRAM length beyond the payload
+    c.push((1, ALL, vec![0x30]));
+    c.push((1, ALL, vec![0x31, 0x00]));
+    c.push((1, ALL, vec![0x1a, 1, 2, 3, 4, 5, 6, 7])); // PATH_CHALLENGE 7 bytes
+    c.push((1, ALL, vec![0x1b, 1, 2, 3, 4, 5, 6, 7]));
+    c.push((1, ALL, vec![0x40, 0x01])); // PING, 2-byte type
+    c.push((1, ALL, vec![0xc0, 0, 0, 0, 0, 0, 0, 0x06, 0x00, 0x00])); // CRYPTO, 8-byte type
+    c.push((1, ALL, vec![0x1f]));
+    c.push((1, ALL, vec![0x21]));
+    c.push((1, ALL, vec![0x80, 0x3d, 0x7e]));
+    c.push((1, ALL, vec![0x80, 0x3d, 0x7e, 0x90])); // ADD_ADDRESS with nothing
+    c.push((1, ALL, vec![0x80, 0x3d, 0x7e, 0x90, 1, 0x11, 0x51, 127, 0, 0, 1, 2, 6])); // nat type 6
+    c.push((1, ALL, vec![0x80, 0x3d, 0x7e, 0x90, 1, 0x11, 0x51, 127, 0, 0, 1, 2, 0x41, 0x00])); // nat type 256
+    c.push((1, ALL, vec![0x80, 0x3d, 0x7e, 0x93, 1, 2, 0x11, 0x51, 0, 0, 0, 0, 0, 0, 0, 0, 0, 0, 0, 0, 0, 0, 0])); // v6 truncated
+    c.push((1, ALL, vec![0x80, 0x3d, 0x7e, 0x97]));
+    c.push((1, ALL, vec![0x00; 1500]));
+    // --- transport parameters --------------------------------------------------------------
+    c.push((2, ALL, vec![0x04, 0x02, 0x05, 0x00, 0x0f, 0x00])); // varint with trailing value byte
+    c.push((2, ALL, cat(&[&[0x0f, 21], &[0xaa; 21]]))); // 21-byte cid
+    c.push((2, ALL, cat(&[&[0x0f, 0x40, 0xff], &[0xaa; 255]])));
+    c.push((2, ALL, cat(&[&[0x0f, 0x00, 0x02, 15], &[0xbb; 15]]))); // reset token 15
+    c.push((2, ALL, cat(&[&[0x0f, 0x00, 0x02, 17], &[0xbb; 17]])));
+    c.push((2, ALL, cat(&[&[0x0f, 0x00, 0x00, 0x00, 0x02, 16], &[0xbb; 16]])));
+    c.push((2, ALL, vec![0x0f, 0x00, 0x0c, 0x01, 0x00])); // flag with a value byte
+    c.push((2, ALL, vec![0x0f, 0x00, 0x40, 0x0c, 0x00]));
+    c.push((2, ALL, vec![0x0f, 0x00, 0x04, 0x00])); // varint parameter with empty value
+    c.push((2, ALL, vec![0x0f, 0x00, 0x04, 0x01, 0x40])); // value varint truncated
+    c.push((2, ALL, vec![0x0f, 0x00, 0x04, 0x08, 0xff, 0xff, 0xff, 0xff, 0xff, 0xff, 0xff, 0xff]));
+    c.push((2, ALL, vec![0x0f, 0x00, 0x03, 0x02, 0x44, 0xaf])); // max_udp_payload_size 1199
+    c.push((2, ALL, vec![0x0f, 0x00, 0x0a, 0x01, 21])); // ack_delay_exponent 21
+    c.push((2, ALL, vec![0x0f, 0x00, 0x0e, 0x01, 1])); // active_connection_id_limit 1
+    c.push((2, ALL, vec![0x0f, 0x00, 0x0f, 0x00])); // duplicate
+    c.push((2, ALL, vec![0x0f])); // id only
+    c.push((2, ALL, vec![0x0f, 0x05, 1, 2])); // value shorter than its length
+    c.push((2, ALL, cat(&[&[0x0f, 0x00, 0x01], &[0xff; 8]]))); // length 2^62-1
+    c.push((2, ALL, cat(&[&[0xff; 8], &[0x00]]))); // unknown id 2^62-1
+    c.push((2, ALL, cat(&[&[0x40]])));
+    c.push((2, ALL, vec![]));
+    for n in [0usize, 20, 21] {
+        for tok in [15usize, 16, 17] {
+            // preferred address with cid of n bytes and a token of tok bytes
+            let mut body = vec![1, 2, 3, 4, 0x11, 0x51];
+            body.extend_from_slice(&[0x20; 16]);
+            body.extend_from_slice(&[0x11, 0x51, n as u8]);
+            body.extend_from_slice(&vec![0xcc; n]);
+            body.extend_from_slice(&vec![0xdd; tok]);
+            c.push((2, ALL, cat(&[&[0x0f, 0x00, 0x00, 0x00, 0x0d, body.len() as u8], &body])));
+        }
+    }
+    c.push((2, ALL, cat(&[&[0x0f, 0x00, 0x00, 0x00, 0x0d, 10], &[0x01; 10]])));
+    c.push((2, ALL, cat(&[&[0x0f, 0x00, 0x80, 0x00, 0xff, 0xee, 0x03], b"abc"]))); // client name
+    // every server-only parameter alone next to the required initial_source_connection_id
+    c.push((2, ALL, cat(&[&[0x0f, 0x00, 0x02, 16], &[0xbb; 16]])));
+    c.push((2, ALL, vec![0x0f, 0x00, 0x00, 0x00]));
+    c.push((2, ALL, vec![0x0f, 0x00, 0x10, 0x00]));
+    c.push((2, ALL, cat(&[&[0x0f, 0x00, 0x0d, 45, 1, 2, 3, 4, 0x11, 0x51], &[0x20; 16], &[0x11, 0x51, 4, 9, 9, 9, 9], &[0xdd; 16]])));
+    c
+}
+
+fn frame_first_bytes() -> Vec<Vec<u8>> {
+    let mut v: Vec<Vec<u8>> = (0u8..=0x3f).map(|b| vec![b]).collect();
+    for t in 0x3d7e8fu32..=0x3d7e98 {
+        v.push((t | 0x8000_0000).to_be_bytes().to_vec());
+    }
+    v.push(vec![0x40, 0x06]);
+    v.push(vec![0x80, 0, 0, 0x08]);
+    v
+}
+
+pub fn run(args: &Args, rep: &mut Report) {
+    rep.rule = "input = (decoder, configuration, byte string); distinct = distinct such triples; non-trivial = decoding got past the \
+                type field: at least one element (other than PADDING/PING) was decoded, or the error is not an unknown / truncated / \
+                misplaced type"
+        .into();
+    if let Some(path) = args.get("replay") {
+        let v: Value = serde_json::from_str(&std::fs::read_to_string(path).unwrap()).unwrap();
+        let v = if v.get("replay").is_some() { v["replay"].clone() } else { v };
+        let dn = v["decoder"].as_str().unwrap();
+        let decoder = DECODERS.iter().position(|d| *d == dn).unwrap();
+        let bytes = vcore::unhex(v["hex"].as_str().unwrap());
+        let mut cx = Ctx { rep, inputs: 0, sampled: vec![] };
+        cx.case(decoder, v["arg"].as_u64().unwrap() as usize, &bytes, "replay");
+        return;
+    }
+    let thorough = args.get("tier") == Some("thorough");
+    let shard = args.u64("shard", 0);
+    let shards = args.u64("shards", 1);
+    let seed = args.seed();
+    let mut cx = Ctx { rep, inputs: 0, sampled: vec![] };
+
+    // (c) hand-seeded corpus, every configuration of the decoder
+    for (i, (dec, arg, bytes)) in corpus().iter().enumerate() {
+        if i as u64 % shards != shard {
+            continue;
+        }
+        let args_: Vec<usize> = if *arg != usize::MAX {
+            vec![*arg]
+        } else {
+            match dec {
+                0 => (0..=20).collect(),
+                1 => (0..5).collect(),
+                _ => (0..3).collect(),
+            }
+        };
+        for a in args_ {
+            cx.case(*dec, a, bytes, "corpus");
+        }
+    }
+
+    // (b) structure-aware mutation of valid encodings
+    let n_seeds = args.budget(if thorough { 3000 } else { 160 });
+    let mut rng = Rng::new(seed ^ 0xc03).fork(shard);
+    let mut prev: [Vec<u8>; 3] = [vec![0x40; 30], vec![0x01], vec![0x0f, 0x00]];
+    for i in 0..n_seeds {
+        let case_seed = vcore::fnv(format!("c03/{seed}/{shard}/{i}").as_bytes());
+        let mut s = Src::random(case_seed);
+        match i % 4 {
+            0 => {
+                // datagram
+                let (bytes, dlen) = g::gen_datagram(&mut s);
+                cx.case(0, dlen, &bytes, "valid");
+                let other = prev[0].clone();
+                let alt = rng.usize(21);
+                let mut batch = vec![];
+                mutants(&bytes, &other, &mut rng, thorough, |o, m| batch.push((o.to_string(), m)));
+                for (k, (o, m)) in batch.iter().enumerate() {
+                    cx.case(0, dlen, m, o);
+                    if k % 4 == 0 {
+                        cx.case(0, alt, m, o);
+                    }
+                }
+                prev[0] = bytes;
+            }
+            1 | 2 => {
+                // payload of 1..4 frames valid for one packet type
+                let pi = s.pick(5) as usize;
+                let mut bytes = vec![];
+                let n = 1 + s.wide(4);
+                let mut k = 0;
+                let mut guard = 0;
+                while k < n && guard < 100 {
+                    guard += 1;
+                    let kind = s.wide(FRAME_KINDS.len() as u64) as usize;
+                    let f = g::gen_frame_of(&mut s, kind, 40);
+                    let t = VarInt::from(f.frame_type()).into_u64();
+                    if !r::permitted(t, pi).unwrap() || g::data_len(&f) > 300 {
+                        continue;
+                    }
+                    let enc = g::encode_frame(&f);
+                    if enc.len() > 400 || (!g::is_delimited(&f) && k + 1 != n) {
+                        continue;
+                    }
+                    bytes.extend_from_slice(&enc);
+                    k += 1;
+                }
+                for p in 0..5 {
+                    cx.case(1, p, &bytes, "valid");
+                }
+                let other = prev[1].clone();
+                let alt = rng.usize(5);
+                let mut batch = vec![];
+                mutants(&bytes, &other, &mut rng, thorough, |o, m| batch.push((o.to_string(), m)));
+                for (k, (o, m)) in batch.iter().enumerate() {
+                    cx.case(1, pi, m, o);
+                    if k % 4 == 0 {
+                        cx.case(1, alt, m, o);
+                    }
+                }
+                prev[1] = bytes;
+            }
+            _ => {
+                let c = g::gen_params(&mut s);
+                let Ok(bytes) = g::encode_params(&c) else { continue };
+                let own = if c.role == qbase::role::Role::Client { 0 } else { 1 };
+                for w in 0..3 {
+                    cx.case(2, w, &bytes, "valid");
+                }
+                let other = prev[2].clone();
+                let mut batch = vec![];
+                mutants(&bytes, &other, &mut rng, thorough, |o, m| batch.push((o.to_string(), m)));
+                for (k, (o, m)) in batch.iter().enumerate() {
+                    cx.case(2, own, m, o);
+                    if k % 3 == 0 {
+                        cx.case(2, (own + 1 + k / 3 % 2) % 3, m, o);
+                    }
+                    // the primitives see the same hostile bytes
+                    if k % 8 == 0 {
+                        cx.case(3, (k / 8) % N_PRIM, m, o);
+                    }
+                }
+                // a well-formed parameter of every known id (possibly one the sender's role must not
+                // use) put behind / in front of the valid set
+                for id in g::ALL_PARAM_IDS {
+                    use qbase::param::WriteParameter;
+                    let v = g::param_value(&mut s, id);
+                    let mut one: Vec<u8> = vec![];
+                    one.put_parameter(id, &v);
+                    let mut m = bytes.clone();
+                    m.extend_from_slice(&one);
+                    for w in 0..3 {
+                        cx.case(2, w, &m, "foreign-param");
+                    }
+                    one.extend_from_slice(&bytes);
+                    cx.case(2, own, &one, "foreign-param");
+                }
+                prev[2] = bytes;
+            }
+        }
+    }
+
+    // (a) random bytes with a biased first byte
+    let n_random = args.u64("random", if thorough { 400_000 } else { 12_000 });
+    let firsts = frame_first_bytes();
+    for i in 0..n_random {
+        let len = match rng.below(6) {
+            0 => rng.usize(8),
+            1 | 2 => rng.usize(64),
+            3 | 4 => rng.usize(300),
+            _ => rng.usize(1501),
+        };
+        let mut bytes = rng.bytes(len);
+        match i % 4 {
+            0 => {
+                if !bytes.is_empty() {
+                    // header form / fixed bit / type bits, and a plausible version
+                    bytes[0] = [0x40, 0x60, 0x00, 0xc0, 0xd0, 0xe0, 0xf0, 0x80, 0xcf, 0x7f][rng.usize(10)] | (rng.next_u64() as u8 & 0x0f);
+                    if bytes[0] & 0x80 != 0 && bytes.len() >= 7 && rng.chance(9, 10) {
+                        let v = [0u32, 1, 1, 1, 1, 2][rng.usize(6)];
+                        bytes[1..5].copy_from_slice(&v.to_be_bytes());
+                        if rng.chance(7, 10) {
+                            bytes[5] = rng.below(24) as u8;
+                        }
+                    }
+                }
+                cx.case(0, rng.usize(21), &bytes, "random");
+            }
+            1 | 2 => {
+                let f = rng.pick(&firsts).clone();
+                let mut m = f;
+                m.extend_from_slice(&bytes);
+                // small varints make the following fields parse more often
+                if rng.bool() {
+                    for b in m.iter_mut().skip(1).take(12) {
+                        if rng.chance(2, 3) {
+                            *b &= 0x3f;
+                        }
+                    }
+                }
+                cx.case(1, rng.usize(5), &m, "random");
+            }
+            _ => {
+                if rng.bool() {
+                    // a sequence of (known id, small length, value) with random content
+                    let mut m = vec![];
+                    for _ in 0..rng.range(1, 6) {
+                        let id = *rng.pick(&[0u64, 1, 2, 3, 4, 5, 8, 0x0a, 0x0b, 0x0c, 0x0d, 0x0e, 0x0f, 0x10, 0x20, 0x2ab2, 0xffee, 0x1b]);
+                        m.extend_from_slice(&varint_bytes(id, r::min_varint_len(id)));
+                        let l = *rng.pick(&[0usize, 1, 2, 4, 8, 15, 16, 17, 20, 21, 41, 45, 61, 62]);
+                        let l = if rng.chance(1, 6) { rng.usize(70) } else { l };
+                        m.extend_from_slice(&varint_bytes(l as u64, r::min_varint_len(l as u64)));
+                        let mut body = rng.bytes(l);
+                        if l > 0 && rng.chance(2, 3) {
+                            // make the value a varint of exactly l bytes when possible
+                            if let Some(p) = [1usize, 2, 4, 8].iter().position(|w| *w == l) {
+                                body[0] = (body[0] & 0x3f) | ((p as u8) << 6);
+                            }
+                        }
+                        m.extend_from_slice(&body);
+                    }
+                    bytes = m;
+                }
+                cx.case(2, rng.usize(3), &bytes, "random");
+                cx.case(3, rng.usize(N_PRIM), &bytes, "random");
+            }
+        }
+    }
 }
